@@ -81,10 +81,11 @@ Definition get_topmost_visible (Hf : Z -> Z) (height nlines : Z) : Z :=
 Record sstate := mkss { vs : Z; vs2 : Z; hs : Z }.
 
 (* Window._scroll_when_linewrapping.  [Hf] = get_line_height, [tbh slice] =
-   get_height_for_line(cursor line, slice_stop=slice).  [fixed] selects the
-   repaired slice (cursor column + 1, fixes/C11-*.patch) instead of the coded
-   one (cursor column). *)
-Definition scroll_wrap (fixed allow_beyond : bool) (Hf : Z -> Z) (tbh : Z -> Z)
+   get_height_for_line(cursor line, slice_stop=slice).  [fixed = true] is the
+   code as it is now (slice_stop = cursor column + 1, /repo commit f4b07a8);
+   [fixed = false] is the pinned snapshot (slice_stop = cursor column), kept
+   only for the _pinned_refuted theorem. *)
+Definition scroll_wrap_gen (fixed allow_beyond : bool) (Hf : Z -> Z) (tbh : Z -> Z)
     (width height top bottom cy cx nlines : Z) (st : sstate) : sstate :=
   if width <=? 0 then mkss cy 0 0 else
   let line_height := Hf cy in
@@ -99,6 +100,10 @@ Definition scroll_wrap (fixed allow_beyond : bool) (Hf : Z -> Z) (tbh : Z -> Z)
     let v := Z.min v (get_max_vertical_scroll Hf top cy) in
     let v := if allow_beyond then v else Z.min v topmost in
     mkss v 0 0.
+
+(* the code as it is in /repo, and the pinned snapshot *)
+Definition scroll_wrap := scroll_wrap_gen true.
+Definition scroll_wrap_pinned := scroll_wrap_gen false.
 
 (* Window._scroll_without_linewrapping (line_count > 0, no get_*_scroll hooks).
    [line] = text of the cursor line, [pw] = width of get_line_prefix(cy, 0). *)
